@@ -16,11 +16,13 @@ type schan struct {
 }
 
 type gor struct {
-	id    int
-	wake  chan struct{}
-	ready func() bool // nil = runnable
-	done  bool
-	main  bool
+	id     int
+	wake   chan struct{}
+	ready  func() bool // nil = runnable
+	done   bool
+	main   bool
+	killed bool
+	exited chan struct{}
 }
 
 type scheduler struct {
@@ -60,6 +62,10 @@ func (s *scheduler) switchAway(me *gor) {
 		if next == me {
 			return
 		}
+		if next == nil && fireEarliestTimer() {
+			// everyone was blocked: virtual time advanced to the earliest timer
+			continue
+		}
 		if next == nil {
 			// deadlock: nobody can run
 			if me.main {
@@ -72,6 +78,9 @@ func (s *scheduler) switchAway(me *gor) {
 		s.cur = next
 		next.wake <- struct{}{}
 		<-me.wake
+		if me.killed {
+			panic(abortGoroutine{})
+		}
 		s.cur = me
 		if s.abort != nil {
 			if me.main {
@@ -115,33 +124,46 @@ func (s *scheduler) pick(me *gor) *gor {
 	return cands[0]
 }
 
+// killAll terminates every interpreted goroutine except main and waits until each has really exited
+// (so that nothing of this path still runs when the next path starts).
 func (s *scheduler) killAll() {
 	for _, g := range s.gs {
-		if !g.main && !g.done {
-			s.abort = abortGoroutine{}
-			g.done = true
-			select {
-			case g.wake <- struct{}{}:
-			default:
-			}
+		if g.main || g.exited == nil {
+			continue
 		}
+		select {
+		case <-g.exited:
+			continue
+		default:
+		}
+		g.killed = true
+		g.done = true
+		select {
+		case g.wake <- struct{}{}:
+		default:
+		}
+		<-g.exited
 	}
 	s.abort = nil
 }
 
 // spawn starts fn as a new interpreted goroutine (runs when scheduled).
 func (s *scheduler) spawn(run func()) {
-	g := &gor{id: len(s.gs), wake: make(chan struct{}, 1)}
+	g := &gor{id: len(s.gs), wake: make(chan struct{}, 1), exited: make(chan struct{})}
 	s.gs = append(s.gs, g)
 	go func() {
+		defer close(g.exited)
 		<-g.wake
-		if g.done { // killed before start
+		if g.killed { // killed before start
 			return
 		}
 		s.cur = g
 		defer func() {
 			r := recover()
 			g.done = true
+			if g.killed {
+				return // killAll is waiting for us; it keeps the baton
+			}
 			if r != nil {
 				if _, ok := r.(abortGoroutine); ok {
 					return
@@ -151,6 +173,21 @@ func (s *scheduler) spawn(run func()) {
 			}
 			// pass baton on
 			next := s.pick(g)
+			for next == nil && s.abort == nil {
+				fired := false
+				func() {
+					defer func() {
+						if r := recover(); r != nil {
+							s.abort = r
+						}
+					}()
+					fired = fireEarliestTimer()
+				}()
+				if !fired {
+					break
+				}
+				next = s.pick(g)
+			}
 			if s.abort != nil || next == nil {
 				if next == nil && s.abort == nil {
 					s.abort = pathEnd{"blocked"}
@@ -283,6 +320,9 @@ func (s *scheduler) switchAwayOnce(me *gor) {
 	s.cur = next
 	next.wake <- struct{}{}
 	<-me.wake
+	if me.killed {
+		panic(abortGoroutine{})
+	}
 	s.cur = me
 	me.ready = nil
 	if s.abort != nil {
